@@ -15,20 +15,23 @@ ASSUMPTIONS = [
     "ref_tm is validated at run time: zeta-plane vs q-plane quadrature, path independence (Cauchy), long double vs float128, "
     "Cauchy-Riemann residual, spherical closed form, meridian identity, reverse(forward), far-side reflection (failure => exit 2)",
     "tolerances: position K=4 x documented (5 nm series within 35 deg / 8 nm exact), scaled by a/6378137, as ground distance (error / k); "
-    "series outside |f|<=WGS84-like or 35 deg: + C a |n|^7 cosh(14 eta')/(1-r) with C = 12 (forward), 5 (reverse) calibrated once on the "
-    "unchanged tree (observed maxima 7.5, 2.6), judged only while |dlon|<=75 deg and r=|n|exp(2 eta')<=0.3",
+    "series outside |f|<=WGS84-like or 35 deg: + C a |n|^7 cosh(14 eta')/(1-r) with C = 12 (forward), 6 (reverse) calibrated once on the "
+    "unchanged tree (observed maxima 7.5, 3.6), judged only while |dlon|<=75 deg and r=|n|exp(2 eta')<=0.3",
     "the documented convergence accuracy (2e-15 arcsec) is below binary64 resolution; gamma and k are judged by their ground equivalent: "
     "position tolerance / (nu cos phi) x |sin(complex latitude)| + 16 eps (gamma), + 4 x 6e-14 (k), + calibrated series tail",
     "Reverse is judged through REF's own derivative (first-order Taylor about the forward point; second-order term < 1e-20 relative)",
-    "Jacobian monitor: Richardson two-step central differences (2e-4 deg), tolerance 4e-9/cos(lat); skipped within 0.02 rad of the branch point and for k/k0>=50",
+    "Jacobian monitor: Richardson two-step central differences (2e-4 deg), tolerance 1.5e-9/cos(lat); skipped within 0.02 rad of the branch point and for k/k0>=50",
     "exact class with f>=0.1 (not 'ellipsoids used in terrestrial geodesy') and the continued sheet at k/k0>20 report under separate narrow keys",
+    "GEOGRAPHICLIB_PANIC hook: a silent Newton non-convergence (zetainv / sigmainv / tauf) during a judged call is a violation hook:C06/panic/<site>; "
+    "in the large-f / extendp-high-scale regimes it is only counted",
+    "the sign convention of y at lat = +-0 on the far side is not documented; it is only required to be the same in the series and the exact class",
 ]
 EXHAUSTIVE_SUBSPACES = []
 RUNS = [dict(harness="harness/C06.cpp", flavour="o2", scale={"quick": 1.0, "thorough": 1.0}),
         dict(harness="harness/C06.cpp", flavour="asan", scale={"quick": 0.1, "thorough": 0.03}, extra_args=["--limit-s", "300"])]
 MANIFEST = dict(
     technique="runtime oracle monitor (float128 Gauss-Krueger by analytic continuation, evaluated next to every call), law monitors "
-              "(round trip, bit-exact parity / wrap / delegation), finite-difference Jacobian monitor; same workload under ASan+UBSan",
+              "(round trip, bit-exact parity / wrap / delegation), finite-difference Jacobian monitor, convergence-failure hook monitor; same workload under ASan+UBSan",
     text="TransverseMercator (series) and TransverseMercatorExact (with and without extendp, and through TransverseMercator(exact=true)) are "
          "executed on stratified points over an ellipsoid / scale / central-meridian ladder; each Forward and Reverse result is compared "
          "with an independent definition-based reference (complex path integral of the meridian-distance derivative, validated at run time) "
